@@ -146,16 +146,24 @@ struct Run {
     K[1] = Sym(sm);
     K[2] = Sym(to);
     if (logarithmic) {
-      // two handlers are built (F0 then F1): the oracle answers the same symbols for both; the outputs only
-      // depend on the decomposition of C1 = F1^T F1 (the one of F0 feeds the unused initial stress conversion)
+      // two handlers are built, lgh0(F0) then lgh1(F1): the oracle answers a different set of symbols for each
+      // (`vpa*`, `ma**` for C0 = F0^T F0; `vp*`, `m**` for C1 = F1^T F1)
       auto& o = c24::oracle();
-      c24::fill(o.vp, "vp", 3, VP_SH);
-      for (int i = 0; i != 3; ++i)
-        for (int j = 0; j != 3; ++j) o.m(i, j) = Sym(i == j ? 1 : 0);
-      const int n = (N == 3) ? 3 : 2;
-      for (int i = 0; i != n; ++i)
-        for (int j = 0; j != n; ++j)
-          o.m(i, j) = c24::in("m" + std::to_string(i) + std::to_string(j), N == 3 ? M_SH[3 * i + j] : M2_SH[2 * i + j]);
+      o.queue.clear();
+      for (const char* tag : {"a", ""}) {
+        tvector<3u, Sym> vp;
+        tmatrix<3u, 3u, Sym> m;
+        const std::string t(tag);
+        for (int i = 0; i != 3; ++i) vp[i] = c24::in("vp" + t + std::to_string(i), VP_SH[i] + (t.empty() ? 0. : 0.11 * (i + 1)));
+        for (int i = 0; i != 3; ++i)
+          for (int j = 0; j != 3; ++j) m(i, j) = Sym(i == j ? 1 : 0);
+        const int n = (N == 3) ? 3 : 2;
+        for (int i = 0; i != n; ++i)
+          for (int j = 0; j != n; ++j)
+            m(i, j) = c24::in("m" + t + std::to_string(i) + std::to_string(j),
+                              N == 3 ? M_SH[3 * (t.empty() ? i : j) + (t.empty() ? j : i)] : M2_SH[2 * i + j]);
+        o.queue.push_back({vp, m});
+      }
     }
     mfront_gb_BehaviourData d;
     d.error_message = nullptr;
